@@ -273,11 +273,12 @@ func replayModel(g *Gen, o *Obligation, rf *ReplayFile) {
 		script = script[:j]
 	}
 	// make sure str!len/str!at are declared even when the cone did not contain them
+	const strSort = "(define-sort Str () Int)"
 	if !strings.Contains(script, "(declare-fun str!len") {
-		script = strings.Replace(script, "(declare-sort Str 0)", "(declare-sort Str 0)\n(declare-fun str!len (Str) (_ BitVec 64))", 1)
+		script = strings.Replace(script, strSort, strSort+"\n(declare-fun str!len (Str) (_ BitVec 64))", 1)
 	}
 	if !strings.Contains(script, "(declare-fun str!at") {
-		script = strings.Replace(script, "(declare-sort Str 0)", "(declare-sort Str 0)\n(declare-fun str!at (Str (_ BitVec 64)) (_ BitVec 8))", 1)
+		script = strings.Replace(script, strSort, strSort+"\n(declare-fun str!at (Str (_ BitVec 64)) (_ BitVec 8))", 1)
 	}
 	script += "(get-value (" + strings.Join(gv, " ") + "))\n"
 	res, out, _ := runSolver(solvers[0], script, 30, "replay")
@@ -505,7 +506,7 @@ func (rc *replayCtx) evalClause(o *Obligation, rf *ReplayFile, outText string, a
 	var names []string
 	var vals []string
 	for s, n := range rc.strs {
-		decls = append(decls, fmt.Sprintf("(declare-const %s Str)", n))
+		decls = append(decls, fmt.Sprintf("(define-fun %s () Str %d)", n, 1000000+len(decls)))
 		names = append(names, n)
 		vals = append(vals, s)
 	}
@@ -516,7 +517,7 @@ func (rc *replayCtx) evalClause(o *Obligation, rf *ReplayFile, outText string, a
 	}
 	script := fv.c.Script([]string{and(append(facts, not(t))...)}, nil)
 	// declarations of the concrete strings go right after the Str sort
-	script = strings.Replace(script, "(declare-sort Str 0)", "(declare-sort Str 0)\n"+strings.Join(decls, "\n"), 1)
+	script = strings.Replace(script, "(define-sort Str () Int)", "(define-sort Str () Int)\n"+strings.Join(decls, "\n"), 1)
 	res, _, _ := runSolver(solvers[0], script, 30, "replay-eval")
 	if res != "sat" && res != "unsat" {
 		res, _, _ = runSolver(solvers[3], script, 30, "replay-eval")
